@@ -2,11 +2,11 @@
 # mutation_run.sh <seeded-id> <prop>...   run the given checks against a seeded change, in a scratch
 # copy of /verif (/tmp/mv/verif, harness pointed at /tmp/mv/repo) so that /repo itself is not disturbed.
 id=$1; shift
-R=/tmp/mv/repo; V=/tmp/mv/verif
+MV=${MV:-/tmp/mv}; R=$MV/repo; V=$MV/verif
 git -C $R checkout -q -- . 
 git -C $R checkout -q --detach $(git -C /repo rev-parse HEAD)
 git -C $V checkout -q -- . ; git -C $V checkout -q --detach $(git -C /verif rev-parse HEAD)
-sed -i 's#path = "/repo"#path = "/tmp/mv/repo"#' $V/harness/Cargo.toml $V/miri-harness/Cargo.toml 2>/dev/null
+sed -i 's#path = "/repo"#path = "'"$R"'"#' $V/harness/Cargo.toml $V/miri-harness/Cargo.toml 2>/dev/null
 if ! git -C $R apply /verif/seeded/$id/patch.diff; then echo "$id apply-failed"; exit 2; fi
 for p in "$@"; do
   out=$(cd $V && ./check $p 2>&1 | tail -4)
